@@ -215,6 +215,11 @@ func c12Run(t *testing.T, sc c12Scenario, f *c12Fault, ref *c12Ref) *c12Ref {
 		w.hooks.SetOverride(func(call *sim.HookCall) *sim.HookResponse {
 			n := int(atomic.AddInt32(&hookN, 1))
 			if n != f.Pos || !atomic.CompareAndSwapInt32(&fired, 0, 1) {
+				if sc.Rolling {
+					// the per-revision calls of a rollout run in parallel: the one that fails answers at
+					// once, its siblings take a little longer (a sync returns only when all were answered)
+					time.Sleep(120 * time.Millisecond)
+				}
 				return nil
 			}
 			faultSync = call.Tag
